@@ -145,7 +145,7 @@ structure Sync (d : Data) : Prop where
   rawNodup : RawNodup d.raw
   keysNodup : d.keys.Nodup
   keysInRaw : ∀ k ∈ d.keys, (lookup d.raw k).isSome = true
-  rawInKeys : ∀ k, (lookup d.raw k).isSome = true → k ∈ d.keys ∨ classAttr k = some .shadow
+  rawInKeys : ∀ k, (lookup d.raw k).isSome = true → k ∈ d.keys
   keysPublic : ∀ k ∈ d.keys, identPub k = true
 
 theorem sync_empty : Sync ⟨[], []⟩ :=
@@ -167,7 +167,7 @@ theorem hasattr_public {d : Data} {k : Str} (hp : identPub k = true) :
   cases lookup d.raw k <;> simp
 
 theorem sync_rawSet_present {d : Data} (h : Sync d) (k : Str) (v : Val)
-    (hk : (lookup d.raw k).isSome = true ∨ classAttr k = some .shadow) :
+    (hk : (lookup d.raw k).isSome = true) :
     Sync { d with raw := rawSet d.raw k v } := by
   refine ⟨rawNodup_rawSet h.rawNodup k v, h.keysNodup, ?_, ?_, h.keysPublic⟩
   · intro j hj
@@ -178,11 +178,7 @@ theorem sync_rawSet_present {d : Data} (h : Sync d) (k : Str) (v : Val)
   · intro j hj
     simp only [lookup_rawSet] at hj
     split at hj
-    · next e =>
-      subst e
-      rcases hk with hk | hk
-      · exact h.rawInKeys _ hk
-      · exact Or.inr hk
+    · next e => subst e; exact h.rawInKeys _ hk
     · exact h.rawInKeys j hj
 
 theorem sync_odictSet_new {d : Data} (h : Sync d) (k : Str) (v : Val)
@@ -215,10 +211,8 @@ theorem sync_odictSet_new {d : Data} (h : Sync d) (k : Str) (v : Val)
     simp only [lookup_rawSet] at hj
     simp only [Bool.false_eq_true, ↓reduceIte, List.mem_append, List.mem_singleton]
     split at hj
-    · next e => exact Or.inl (Or.inr e.symm)
-    · rcases h.rawInKeys j hj with h1 | h1
-      · exact Or.inl (Or.inl h1)
-      · exact Or.inr h1
+    · next e => exact Or.inr e.symm
+    · exact Or.inl (h.rawInKeys j hj)
   · intro j hj
     simp only [Bool.false_eq_true, ↓reduceIte, List.mem_append, List.mem_singleton] at hj
     rcases hj with hj | hj
@@ -230,20 +224,25 @@ theorem sync_setattr {d : Data} (h : Sync d) (k : Str) (v : Val) : Sync (setattr
   unfold setattr
   by_cases hh : hasattr d k = true
   · simp only [hh, if_true]
-    have hcases := (hasattr_iff d k).mp hh
-    cases hc : classAttr k with
-    | none =>
-      simp only
-      apply sync_rawSet_present h
-      rcases hcases with h1 | h1
-      · exact Or.inl h1
-      · rw [hc] at h1; simp at h1
-    | some c =>
-      cases c with
-      | shadow => exact sync_rawSet_present h k v (Or.inr hc)
-      | classPtr => exact h
-      | dictPtr => exact h
-      | weakref => exact h
+    split
+    · exact h
+    · next hg =>
+      cases hl : lookup d.raw k with
+      | some x =>
+        have hs : (lookup d.raw k).isSome = true := by simp [hl]
+        split
+        · exact h
+        · exact h
+        · exact h
+        · exact sync_rawSet_present h k v hs
+      | none =>
+        -- not refused although absent: `__dict__` or `__weakref__`; both raise
+        simp only [hl, Option.isNone_none, Bool.true_and, Bool.and_eq_true, bne_iff_ne, ne_eq,
+          not_and, Decidable.not_not] at hg
+        by_cases hd : classAttr k = some .dictPtr
+        · simp only [hd]; exact h
+        · have := hg hd
+          simp only [this]; exact h
   · simp only [hh, Bool.false_eq_true, if_false]
     have hno : ¬ ((lookup d.raw k).isSome = true ∨ (classAttr k).isSome = true) :=
       fun x => hh ((hasattr_iff d k).mpr x)
@@ -269,9 +268,7 @@ theorem sync_odictPop {d : Data} (h : Sync d) (k : Str) : Sync (odictPop d k) :=
       intro e; subst e
       rw [lookup_rawDel_self h.rawNodup] at hj; simp at hj
     rw [lookup_rawDel_ne _ hne] at hj
-    rcases h.rawInKeys j hj with h1 | h1
-    · exact Or.inl ((List.Nodup.mem_erase_iff h.keysNodup).mpr ⟨Ne.symm hne, h1⟩)
-    · exact Or.inr h1
+    exact (List.Nodup.mem_erase_iff h.keysNodup).mpr ⟨Ne.symm hne, h.rawInKeys j hj⟩
   · intro j hj
     exact h.keysPublic j (List.mem_of_mem_erase hj)
 
@@ -343,10 +340,8 @@ theorem sync_insert {d : Data} (h : Sync d) {k : Str} (v : Val) (i : Int)
   · intro j hj
     simp only [lookup_rawSet] at hj
     split at hj
-    · next e => exact Or.inl (mem_pyInsert.mpr (Or.inl e.symm))
-    · rcases h.rawInKeys j hj with h1 | h1
-      · exact Or.inl (mem_pyInsert.mpr (Or.inr h1))
-      · exact Or.inr h1
+    · next e => exact mem_pyInsert.mpr (Or.inl e.symm)
+    · exact mem_pyInsert.mpr (Or.inr (h.rawInKeys j hj))
   · intro j hj
     rcases mem_pyInsert.mp hj with e | e
     · subst e; exact hp
@@ -594,11 +589,9 @@ theorem view_setattr {d : Data} (h : Sync d) {k : Str} (hp : identPub k = true) 
   rw [hasattr_public hp]
   cases hl : lookup d.raw k with
   | some x =>
-    have hmem : k ∈ d.keys := by
-      rcases h.rawInKeys k (by simp [hl]) with h1 | h1
-      · exact h1
-      · rw [hc] at h1; simp at h1
-    simp only [Option.isSome_some, if_true, hc, true_and]
+    have hmem : k ∈ d.keys := h.rawInKeys k (by simp [hl])
+    simp only [Option.isSome_some, if_true, hc, Option.isNone_some, Bool.false_and,
+      Bool.false_eq_true, if_false, true_and]
     exact filterMap_rawSet_mem d.raw k v d.keys h.keysInRaw h.keysNodup hmem
   | none =>
     have hnk : k ∉ d.keys := by
@@ -641,10 +634,7 @@ theorem view_delattr {d : Data} (h : Sync d) {k : Str} (hp : identPub k = true) 
     have hn : lookup d.raw k = none := by
       cases hl : lookup d.raw k with
       | none => rfl
-      | some x =>
-        rcases h.rawInKeys k (by simp [hl]) with h1 | h1
-        · exact absurd h1 hm
-        · rw [hc] at h1; simp at h1
+      | some x => exact absurd (h.rawInKeys k (by simp [hl])) hm
     unfold delattr
     simp [hn, hc]
 
@@ -659,10 +649,7 @@ theorem view_getattr {d : Data} (h : Sync d) {k : Str} (hp : identPub k = true) 
   rw [hc]
   cases hl : lookup d.raw k with
   | some x =>
-    have hmem : k ∈ d.keys := by
-      rcases h.rawInKeys k (by simp [hl]) with h1 | h1
-      · exact h1
-      · rw [hc] at h1; simp at h1
+    have hmem : k ∈ d.keys := h.rawInKeys k (by simp [hl])
     simp [hmem]
   | none => simp
 
@@ -733,184 +720,6 @@ theorem createLoop_keeps (ps : List (Str × Val)) : ∀ (d : Data) (upd : Bool) 
           rw [ih d' true k (by rw [hasattr_of_getattr_eq hg]; exact hk)]
           exact hg
 
-/-! ### without class-attribute names the dict and the key list have the same keys -/
-
-def RawPublic (d : Data) : Prop := ∀ k, (lookup d.raw k).isSome = true → k ∈ d.keys
-
-theorem rawPublic_setattr {d : Data} (hs : Sync d) (h : RawPublic d) {k : Str} (v : Val)
-    (hc : classAttr k = none) : RawPublic (setattr d k v).1 := by
-  unfold setattr
-  have hh : hasattr d k = (lookup d.raw k).isSome := by
-    unfold hasattr getattr; rw [hc]; cases lookup d.raw k <;> simp
-  rw [hh]
-  cases hl : lookup d.raw k with
-  | some x =>
-    simp only [Option.isSome_some, if_true, hc]
-    intro j hj
-    simp only [lookup_rawSet] at hj
-    split at hj
-    · next e => subst e; exact h _ (by simp [hl])
-    · exact h j hj
-  | none =>
-    simp only [Option.isSome_none, Bool.false_eq_true, if_false, Bool.false_or]
-    split
-    · intro j hj
-      have hnk : k ∉ d.keys := by
-        intro hm; have := hs.keysInRaw k hm; rw [hl] at this; simp at this
-      have hcont : d.keys.contains k = false := by simpa using hnk
-      simp only [odictSet, lookup_rawSet, hcont, Bool.false_eq_true, if_false, List.mem_append,
-        List.mem_singleton] at hj ⊢
-      split at hj
-      · next e => exact Or.inr e.symm
-      · exact Or.inl (h j hj)
-    · exact h
-
-theorem rawPublic_odictPop {d : Data} (hs : Sync d) (h : RawPublic d) (k : Str) :
-    RawPublic (odictPop d k) := by
-  intro j hj
-  simp only [odictPop] at hj ⊢
-  have hne : k ≠ j := by
-    intro e; subst e
-    rw [lookup_rawDel_self hs.rawNodup] at hj; simp at hj
-  rw [lookup_rawDel_ne _ hne] at hj
-  exact (List.Nodup.mem_erase_iff hs.keysNodup).mpr ⟨Ne.symm hne, h j hj⟩
-
-theorem rawPublic_delattr {d : Data} (hs : Sync d) (h : RawPublic d) (k : Str) :
-    RawPublic (delattr d k).1 := by
-  unfold delattr
-  split
-  · exact rawPublic_odictPop hs h k
-  · split <;> exact h
-
-theorem rawPublic_changeLoop (ps : List (Str × Val)) : ∀ {d : Data}, Sync d → RawPublic d →
-    pairsUseClassAttr ps = false → RawPublic (changeLoop d ps).1 := by
-  induction ps with
-  | nil => intro d _ h _; exact h
-  | cons p ps ih =>
-    obtain ⟨k, v⟩ := p
-    intro d hs h hc
-    simp only [pairsUseClassAttr, List.any_cons, Bool.or_eq_false_iff] at hc
-    have hck : classAttr k = none := by
-      cases hx : classAttr k with
-      | none => rfl
-      | some c => rw [hx] at hc; simp at hc
-    simp only [changeLoop]
-    have h1 := rawPublic_setattr hs h v hck
-    have h2 := sync_setattr hs k v
-    cases hr : setattr d k v with
-    | mk d' e =>
-      rw [hr] at h1 h2
-      cases e with
-      | none => exact ih h2 h1 hc.2
-      | some e => exact h1
-
-theorem rawPublic_createLoop (ps : List (Str × Val)) : ∀ {d : Data} (upd : Bool), Sync d →
-    RawPublic d → pairsUseClassAttr ps = false → RawPublic (createLoop d upd ps).1 := by
-  induction ps with
-  | nil => intro d _ _ h _; exact h
-  | cons p ps ih =>
-    obtain ⟨k, v⟩ := p
-    intro d upd hs h hc
-    simp only [pairsUseClassAttr, List.any_cons, Bool.or_eq_false_iff] at hc
-    have hck : classAttr k = none := by
-      cases hx : classAttr k with
-      | none => rfl
-      | some c => rw [hx] at hc; simp at hc
-    simp only [createLoop]
-    split
-    · exact ih upd hs h hc.2
-    · have h1 := rawPublic_setattr hs h v hck
-      have h2 := sync_setattr hs k v
-      cases hr : setattr d k v with
-      | mk d' e =>
-        rw [hr] at h1 h2
-        cases e with
-        | none => exact ih true h2 h1 hc.2
-        | some e => exact h1
-
-theorem classAttr_none_of_isSome_false {k : Str} (h : (classAttr k).isSome = false) :
-    classAttr k = none := by
-  cases hx : classAttr k with
-  | none => rfl
-  | some c => rw [hx] at h; simp at h
-
-theorem rawPublic_step {w : World} (hs : Sync w.data) (h : RawPublic w.data) (op : Op)
-    (hu : usesClassAttr op = false) : RawPublic (step w op).1.data := by
-  cases op with
-  | setValue v =>
-    simp only [step]
-    have h1 := rawPublic_setattr hs h v classAttr_value
-    cases hr : setattr w.data "value".toList v with
-    | mk d e => rw [hr] at h1; cases e <;> exact h1
-  | getValue => simp only [step]; split <;> exact h
-  | update ps =>
-    simp only [step]
-    have h1 := rawPublic_changeLoop ps hs h hu
-    cases hr : changeLoop w.data ps with
-    | mk d e => rw [hr] at h1; cases e <;> exact h1
-  | change ps => exact rawPublic_changeLoop ps hs h hu
-  | create ps =>
-    simp only [step]
-    have h1 := rawPublic_createLoop ps false hs h hu
-    cases hr : createLoop w.data false ps with
-    | mk d r =>
-      obtain ⟨upd, e⟩ := r
-      rw [hr] at h1
-      cases e with
-      | none => cases upd <;> exact h1
-      | some e => exact h1
-  | stampNow => exact h
-  | setItem k v => exact rawPublic_setattr hs h v (classAttr_none_of_isSome_false hu)
-  | getItem k => simp only [step]; split <;> exact h
-  | delItem k => exact rawPublic_delattr hs h k
-  | contains k => exact h
-  | get k => simp only [step]; split <;> exact h
-  | keys => exact h
-  | items => simp only [step]; split <;> exact h
-  | values => simp only [step]; split <;> exact h
-  | len => exact h
-  | pop k =>
-    simp only [step]
-    split
-    · exact rawPublic_odictPop hs h k
-    · exact h
-  | popitem =>
-    simp only [step]
-    split
-    · exact h
-    · split
-      · exact rawPublic_odictPop hs h _
-      · exact h
-  | setdefault k v =>
-    simp only [step]
-    split
-    · exact h
-    · have h1 := rawPublic_setattr hs h v (classAttr_none_of_isSome_false hu)
-      cases hr : setattr w.data k v with
-      | mk d e =>
-        rw [hr] at h1
-        cases e with
-        | none => simp only; split <;> exact h1
-        | some e => exact h1
-  | clear => intro j hj; simp [step, lookup] at hj
-  | insert idx k v =>
-    simp only [step]
-    split
-    · exact h
-    · split
-      · exact h
-      · intro j hj
-        simp only [lookup_rawSet] at hj
-        split at hj
-        · next e => exact mem_pyInsert.mpr (Or.inl e.symm)
-        · exact mem_pyInsert.mpr (Or.inr (h j hj))
-  | push v => exact h
-  | pull => simp only [step]; split <;> exact h
-  | gulp v => simp only [step]; split <;> exact h
-  | spew => simp only [step]; split <;> exact h
-  | setClock i t => simp only [step]; split <;> exact h
-  | attach s => exact h
-
 theorem setattr_public_none (d : Data) {k : Str} (v : Val) (hp : identPub k = true) :
     (setattr d k v).2 = none := by
   have hc := identPub_not_classAttr hp
@@ -919,16 +728,6 @@ theorem setattr_public_none (d : Data) {k : Str} (v : Val) (hp : identPub k = tr
   cases hl : lookup d.raw k with
   | some x => simp [hc]
   | none => simp [hp]
-
-theorem rawPublic_run (ops : List Op) : ∀ (w : World), Sync w.data → RawPublic w.data →
-    regionD11 ops = false → RawPublic (run w ops).data := by
-  induction ops with
-  | nil => intro w _ hr _; exact hr
-  | cons op ops ih =>
-    intro w hs hr hreg
-    simp only [regionD11, List.any_cons, Bool.or_eq_false_iff] at hreg
-    exact ih (step w op).1 (sync_step hs op) (rawPublic_step hs hr op hreg.1)
-      (by simpa [regionD11] using hreg.2)
 
 /-! ### deck -/
 
